@@ -140,3 +140,109 @@ def reset_active_recording(props=None):
                               s.rd(selfv, '_force_sample') == B(False), s.g['ddom'][Val.addr(cnt)] == z3.K(Val, False),
                               unchanged(s, selfv, ['_playback_recording', 'recording_enabled']), no_cassette_events(s)), oc))
     return [info], obl, {'paths': len(paths), 'forks': ex.forks}
+
+
+# ------------------------------------------------------------------ the decorator factories: they only bind parameters -- but they must bind the right ones
+def factories(props=None):
+    """operation / class_operation / intercept_input / static_intercept_input / intercept_output / static_intercept_output pass their
+    arguments on unchanged with the right class / static flag, and the inner factories return the wrapper closure over exactly these values
+    (so the wrapper units, which are proved for ARBITRARY values of their free variables, apply to every decorated function)"""
+    from pyvc.engine import Bound
+    obl = []; infos = []; n = 0
+    PUB = [('operation', ['metadata_extractor'], '_operation', {'class_function': False}),
+           ('class_operation', ['metadata_extractor'], '_operation', {'class_function': True}),
+           ('intercept_input', ['alias', 'alias_params_resolver', 'data_handler', 'capture_args', 'run_intercepted_when_missing', 'value_when_missing', 'fallback_aliases'], '_intercept_input', {'static_function': False}),
+           ('static_intercept_input', ['alias', 'alias_params_resolver', 'data_handler', 'capture_args', 'run_intercepted_when_missing', 'value_when_missing', 'fallback_aliases'], '_intercept_input', {'static_function': True}),
+           ('intercept_output', ['alias', 'data_handler', 'fail_on_no_recorded_result', 'default_result_when_not_recorded'], '_intercept_output', {'static_function': False}),
+           ('static_intercept_output', ['alias', 'data_handler', 'fail_on_no_recorded_result', 'default_result_when_not_recorded'], '_intercept_output', {'static_function': True})]
+    for name, params, inner, flags in PUB:
+        repo, spec, ex, st, selfv, fr, node, info = setup(TR + name, 'raw', params); infos.append(info)
+        seen = {}
+
+        def c_inner(ex_, s, args, kw, node_, star, dstar, seen=seen):
+            v = fresh('decorator'); seen['args'] = (list(args), dict(kw)); s.g['inner_call'] = (list(args), dict(kw), v); return [(s, ('val', v))]
+        ex.contracts['TapeRecorder.' + inner] = c_inner
+        inode = repo.find(TR + inner)[2]; iparams = [a.arg for a in inode.args.args][1:]
+        for s, oc in norm(ex.block(node.body, st)):
+            n += 1; ic = s.g.get('inner_call')
+            if oc[0] != 'return' or ic is None:
+                obl.append(Obl('C01/%s/returns_the_inner_decorator' % name, ('C01', 'C04', 'C06'), s, z3.BoolVal(False), oc)); continue
+            args, kw, v = ic; bound = dict(zip(iparams, args[1:])); bound.update(kw)
+            want = dict((p, fr[p]) for p in params); want.update({k: B(v_) for k, v_ in flags.items()})
+            ok = z3.And(oc[1] == v, args[0] == selfv, z3.BoolVal(set(bound) == set(iparams)), *[bound[p] == want[p] for p in iparams if p in bound and p in want])
+            obl.append(Obl('C01/%s/passes_every_argument_unchanged_with_the_right_flag' % name, ('C01', 'C04', 'C06', 'C02', 'C03'), s, ok, oc))
+    # inner factories: _operation(class_function, metadata_extractor)(func) etc. return the wrapper closure over exactly these values
+    for inner, wrapper_free in (('_operation', ['class_function', 'metadata_extractor']),
+                                ('_intercept_output', ['alias', 'data_handler', 'fail_on_no_recorded_result', 'default_result_when_not_recorded', 'static_function']),
+                                ('_intercept_input', ['alias', 'alias_params_resolver', 'data_handler', 'capture_args', 'run_intercepted_when_missing', 'value_when_missing', 'fallback_aliases', 'static_function'])):
+        repo, spec, ex, st, selfv, fr, node, info = setup(TR + inner, 'raw', wrapper_free); infos.append(info)
+        func = st.sym_obj('func', 'function')
+        for s, oc in norm(ex.block(node.body, st)):
+            n += 1
+            inf = s.info(oc[1]) if oc[0] == 'return' else None
+            ok = isinstance(inf, Bound) and inf.kind == 'closure' and inf.name == 'func_decoration'
+            obl.append(Obl('C01/%s/returns_func_decoration' % inner, ('C01', 'C04'), s, z3.BoolVal(bool(ok)), oc))
+            if not ok:
+                continue
+            for s2, r2 in ex.call_value(s.copy(), oc[1], [func], {}, node):
+                n += 1
+                i2 = s2.info(r2[1]) if r2[0] == 'val' else None
+                ok2 = isinstance(i2, Bound) and i2.kind == 'closure' and i2.name == 'decorated_function'
+                cl = z3.BoolVal(bool(ok2))
+                if ok2:
+                    # the wrapper's free variables resolve (lexically) to the decorator's parameters and the decorated function
+                    fid = i2.fid; vals = {}
+                    def look(nm, fid=fid):
+                        f_ = fid
+                        while f_ is not None:
+                            if nm in s2.frames[f_]: return s2.frames[f_][nm]
+                            f_ = s2.fparent[f_]
+                        return None
+                    cl = z3.And(cl, look('func') == func, look('self') == selfv, *[look(p) == fr[p] for p in wrapper_free if look(p) is not None])
+                    cl = z3.And(cl, z3.BoolVal(all(look(p) is not None for p in wrapper_free)))
+                obl.append(Obl('C01/%s/wrapper_closes_over_exactly_the_given_configuration_and_function' % inner, ('C01', 'C04', 'C06', 'C02', 'C03'), s2, cl, r2))
+    return infos, obl, {'paths': n, 'forks': 0}
+
+
+def recording_params_unit(props=None):
+    """recording_params(recording_parameters=None, **kwargs)(cls) registers the given parameters object -- or RecordingParameters(**kwargs) -- for
+    exactly that class and returns the class unchanged"""
+    repo, spec, ex, st, selfv, fr, node, info = setup(TR + 'recording_params', 'raw', ['recording_parameters'])
+    rp = fr['recording_parameters']; given = spec.sym_params(st, 'given'); st.assume(z3.Or(rp == NONE, rp == given)); st.note(rp, 'RecordingParameters')
+    kwd = st.sym_obj('kwargs', 'dict'); st.frames[st.stack[-1]]['kwargs'] = kwd
+    for k_ in ('sampling_rate', 'ignore_enforced_sampling', 'skipped', 'copy_data_on_intercepion'):
+        pass
+    tbl = st.rd(selfv, '_classes_recording_params'); t0 = st.dcontents(tbl)
+    cls_v = fresh('cls'); st.assume(Val.is_cls(cls_v)); other = fresh('other'); obl = []; n = 0
+    for s, oc in norm(ex.block(node.body, st)):
+        if oc[0] != 'return':
+            obl.append(Obl('C17/recording_params/returns_the_class_decorator', 'C17', s, z3.BoolVal(False), oc)); continue
+        for s2, r2 in ex.call_value(s.copy(), oc[1], [cls_v], {}, node):
+            n += 1
+            if r2[0] != 'val':
+                # RecordingParameters(**kwargs) with an unknown keyword raises TypeError: only when no parameters object was given
+                obl.append(Obl('C17/recording_params/raises_only_for_bad_keywords', 'C17', s2, rp == NONE, r2)); continue
+            t1 = s2.dcontents(tbl); reg = t1[1][cls_v]
+            obl.append(Obl('C17/recording_params/registers_parameters_for_exactly_this_class', 'C17', s2,
+                           z3.And(r2[1] == cls_v, t1[0][cls_v], z3.Implies(rp != NONE, reg == rp),
+                                  z3.Implies(rp == NONE, z3.And(Val.is_ref(reg), TYP(Val.addr(reg)) == K('RecordingParameters'), Val.addr(reg) > BASE)),
+                                  z3.Implies(other != cls_v, z3.And(t1[0][other] == t0[0][other], t1[1][other] == t0[1][other]))), r2))
+    return [info, repo.find('playback.tape_recorder:RecordingParameters.__init__')[3]], obl, {'paths': n, 'forks': 0}
+
+
+def misc_recorder(props=None):
+    """enable_recording / disable_recording only toggle the flag; current_recording_id reports the active (when enabled) or replayed recording"""
+    obl = []; infos = []; n = 0
+    for name, want in (('enable_recording', True), ('disable_recording', False)):
+        repo, spec, ex, st, selfv, fr, node, info = any_state(TR + name, []); infos.append(info)
+        for s, oc in norm(ex.block(node.body, st)):
+            n += 1
+            obl.append(Obl('C04/%s/only_sets_the_flag' % name, ('C04', 'C09'), s,
+                           z3.And(z3.BoolVal(oc[0] == 'return'), s.rd(selfv, 'recording_enabled') == B(want), unchanged(s, selfv, [f for f in ALLF if f != 'recording_enabled']), no_cassette_events(s)), oc))
+    repo, spec, ex, st, selfv, fr, node, info = any_state(TR + 'current_recording_id', []); infos.append(info); old = st.g['old']
+    for s, oc in norm(ex.block(node.body, st)):
+        n += 1
+        rec = z3.And(truthy(old['enabled']), old['active'] != NONE)
+        want = z3.If(rec, s.rd(old['active'], 'id'), z3.If(old['pb'] != NONE, s.rd(old['pb'], 'id'), NONE))
+        obl.append(Obl('C09/current_recording_id/id_of_the_recording_in_context_or_None', ('C09', 'C02'), s, z3.And(z3.BoolVal(oc[0] == 'return'), oc[1] == want, unchanged(s, selfv, ALLF)), oc))
+    return infos, obl, {'paths': n, 'forks': 0}
